@@ -69,6 +69,10 @@ PShape(r) == IF Ok10(r) THEN ~r.e_nil /\ r.err_nil /\ r.validate_ok ELSE r.outco
 SShape(r) == ~HasObs(r) \/
              /\ (r.obs.sql.out = "ok" => ~r.obs.sql.empty) /\ (r.obs.sql.out = "err" => r.obs.sql.empty)
              /\ (r.obs.sqlp.out = "err" => r.obs.sqlp.empty)
+               \* the same call made a second time (a memo or a pool must not change the result)
+               /\ (r.obs.sql2.out = "ok" => ~r.obs.sql2.empty) /\ (r.obs.sql2.out = "err" => r.obs.sql2.empty)
+               /\ (r.obs.sqlp2.out = "err" => r.obs.sqlp2.empty)
+               /\ r.obs.sql2.out = r.obs.sql.out /\ r.obs.sqlp2.out = r.obs.sqlp.out
              /\ (~Ok10(r) => r.obs.sql.out = "err" /\ r.obs.sqlp.out = "err")
 C10(c) == (IF PShape(c.res) /\ PShape(c.resdf) THEN <<>> ELSE <<Fail("C10", c, "Parse result shape", "none")>>)
        \o (IF SShape(c.res) /\ SShape(c.resdf) THEN <<>> ELSE <<Fail("C10", c, "renderer result shape (text returned together with an error, or empty text without one)", "none")>>)
